@@ -25,7 +25,7 @@ ASSUMPTIONS = [
 REQUIRED_CLASSES = ["nontrivial", "degenerate_box", "box_on_split_line", "touching_only_hit", "empty_index",
                     "single_box", "hatch", "plus", "tiles", "nested", "mirror", "dups", "continuous",
                     "point_query", "segment_query", "enclosing_query", "disjoint_query", "outer_edge_query",
-                    "empty_expected", "geometric"]
+                    "empty_expected", "geometric", "huge_coordinates", "unusual_ids"]
 QUICK_SHARDS = 4
 LINE_BUDGET = 3_000_000
 
@@ -71,7 +71,7 @@ def body(ctx, case):
     except BudgetExceeded:
         ctx.record(case, classes, False)
         ctx.fail("%s did not finish within %d executed lines (construction must terminate)"
-                 % (what, LINE_BUDGET), case)
+                 % (what, LINE_BUDGET), case, expensive=True)
     except RecursionError:
         ctx.record(case, classes, False)
         ctx.fail("%s raised RecursionError (construction must terminate)" % what, case)
@@ -107,7 +107,8 @@ def body(ctx, case):
         try:
             got, _ = sut.call_budget(index.intersection, (q,), line_budget=LINE_BUDGET)
         except BudgetExceeded:
-            ctx.fail("%s.intersection(%r) did not finish within %d executed lines" % (what, q, LINE_BUDGET), one)
+            ctx.fail("%s.intersection(%r) did not finish within %d executed lines" % (what, q, LINE_BUDGET), one,
+                     expensive=True)
         except Exception as exc:  # pylint: disable=broad-except
             ctx.fail("%s.intersection(%r) raised %s: %s" % (what, q, type(exc).__name__, exc), one)
         try:
@@ -210,7 +211,11 @@ def layouts(draw):
         for b in base:
             boxes.extend([list(b)] * draw(st.integers(1, 5)))
     else:
-        scale = 10.0 ** draw(st.integers(-2, 4))
+        # up to the edge of the float range: every finite coordinate is a legal one (sums of two such overflow)
+        scale = draw(st.sampled_from([10.0 ** draw(st.integers(-2, 4)), 10.0 ** draw(st.integers(-2, 4)), 1e300,
+                                      1.7e308]))
+        if scale >= 1e300:
+            tags.add("huge_coordinates")
         coord = st.floats(min_value=-1.0, max_value=1.0, allow_nan=False, width=64)
         n = draw(st.one_of(st.integers(0, 10), st.integers(0, 80)))
         for _ in range(n):
@@ -226,11 +231,19 @@ def layouts(draw):
     order = draw(st.permutations(range(len(boxes)))) if len(boxes) <= 12 and draw(st.booleans()) else \
         list(range(len(boxes)))
     boxes = [boxes[k] for k in order]
-    id_style = draw(st.sampled_from(["index", "index", "offset", "str"]))
+    id_style = draw(st.sampled_from(["index", "index", "offset", "str", "mixed"]))
     if id_style == "index":
         ids = list(range(len(boxes)))
     elif id_style == "offset":
         ids = [100 + 7 * k for k in range(len(boxes))]
+    elif id_style == "mixed":
+        # identifiers are whatever the caller uses as keys: None, False/True, 0, '', tuples (as JSON: lists)
+        pool = [None, 0, "", False, "0", -1, 1.5, "None"]
+        ids = [pool[k] if k < len(pool) else "id%d" % k for k in range(len(boxes))]
+        if len({repr(i) for i in ids}) == len(ids) and len(set(map(lambda v: (type(v).__name__, v), ids))) == len(ids):
+            tags.add("unusual_ids")
+        # 0 == False and would collapse in a set: keep only one of them
+        ids = [("zero" if i is False else i) for i in ids]
     else:
         ids = ["path%d" % k for k in range(len(boxes))]
     # queries
@@ -240,7 +253,17 @@ def layouts(draw):
         ex = [min(b[0] for b in boxes), min(b[1] for b in boxes), max(b[2] for b in boxes), max(b[3] for b in boxes)]
     else:
         ex = [0, 0, 0, 0]
-    unit = 1 if kind not in ("continuous", "geometric") else (abs(ex[2] - ex[0]) + abs(ex[3] - ex[1]) or 1.0) / 8
+    unit = 1 if kind not in ("continuous", "geometric") else (abs(ex[2] / 16 - ex[0] / 16) + abs(ex[3] / 16 - ex[1] / 16)
+                                                             or 1.0)
+    if "huge_coordinates" in tags:
+        unit = 0.0                                   # no room left to step outside the extent without overflowing
+    huge = "huge_coordinates" in tags
+
+    def mix(a, b, t):
+        """a + (b - a) * t without overflowing (b - a) at the edge of the float range."""
+        if huge:
+            t = max(0.0, min(1.0, t))
+        return a * (1 - t) + b * t
     nq = 8
     for _ in range(nq):
         qk = draw(st.sampled_from(["touch_side", "touch_corner", "edge_segment", "same", "inside_point", "outer_edge",
@@ -281,8 +304,8 @@ def layouts(draw):
             tagged.add("disjoint_query")
         elif qk == "point":
             if kind in ("continuous", "geometric"):
-                px = ex[0] + (ex[2] - ex[0]) * draw(st.integers(0, 8)) / 8
-                py = ex[1] + (ex[3] - ex[1]) * draw(st.integers(0, 8)) / 8
+                px = mix(ex[0], ex[2], draw(st.integers(0, 8)) / 8)
+                py = mix(ex[1], ex[3], draw(st.integers(0, 8)) / 8)
             else:
                 px = draw(st.integers(int(ex[0]) - 1, int(ex[2]) + 1))
                 py = draw(st.integers(int(ex[1]) - 1, int(ex[3]) + 1))
@@ -290,8 +313,8 @@ def layouts(draw):
         else:
             if kind in ("continuous", "geometric"):
                 fr = st.integers(-2, 10)
-                xs = sorted([ex[0] + (ex[2] - ex[0]) * draw(fr) / 8, ex[0] + (ex[2] - ex[0]) * draw(fr) / 8])
-                ys = sorted([ex[1] + (ex[3] - ex[1]) * draw(fr) / 8, ex[1] + (ex[3] - ex[1]) * draw(fr) / 8])
+                xs = sorted([mix(ex[0], ex[2], draw(fr) / 8), mix(ex[0], ex[2], draw(fr) / 8)])
+                ys = sorted([mix(ex[1], ex[3], draw(fr) / 8), mix(ex[1], ex[3], draw(fr) / 8)])
             else:
                 xs = sorted([draw(st.integers(int(ex[0]) - 2, int(ex[2]) + 2)),
                              draw(st.integers(int(ex[0]) - 2, int(ex[2]) + 2))])
